@@ -4,7 +4,7 @@
  fails. Writes /verif/seeded/<prop>-<mN>/{patch.diff,demo_test.go,notes.md,meta.json}."""
 import json, os, re, shutil, subprocess, sys
 prop, m = sys.argv[1], sys.argv[2]
-wt = "/tmp/wt_%s" % prop
+wt = os.environ.get("WT_PREFIX", "/tmp/wt_") + prop
 mut = os.path.join(wt, "_mutants")
 env = dict(os.environ, GOFLAGS="-mod=mod", GOPROXY="off", GOSUMDB="off", GOTOOLCHAIN="local")
 def sh(cmd, timeout=900):
